@@ -33,6 +33,11 @@ func (f *frame) run(entry *bstate, args []TV) {
 	}
 	if len(fn.FreeVars) > 0 {
 		for _, fv := range fn.FreeVars {
+			if b, ok := f.fvBind[fv]; ok {
+				f.setVal(fv, b)
+				f.params[fv.Name()] = b
+				continue
+			}
 			// captured variables are pointers to cells owned by the enclosing function
 			tv := f.havocValue(entry, f.id+"fv."+fv.Name(), fv.Type())
 			f.setVal(fv, tv)
@@ -515,10 +520,7 @@ func (f *frame) headEnv(h *ssa.BasicBlock, phiVal func(*ssa.Phi) TV, st *bstate)
 }
 
 func (f *frame) baseEnv(st *bstate) *Env {
-	env := &Env{f: f, vars: map[string]TV{}, st: st, old: f.entry, pkg: f.fn.Pkg.Pkg}
-	for n, tv := range f.params {
-		env.vars[n] = tv
-	}
+	env := &Env{f: f, vars: map[string]TV{}, st: st, old: f.entry, pkg: f.fn.Pkg.Pkg, paramVars: f.params}
 	for n, tv := range st.ghost {
 		env.vars[n] = tv
 	}
@@ -566,9 +568,13 @@ func (f *frame) havocAll(st *bstate, why string) {
 	for _, k := range keeps {
 		vc.assert(eq(sel(vc.comp(st, k.c.comp, k.c.sort), k.c.ref), k.old))
 	}
-	// type invariants of objects reachable through pointer parameters survive
-	// foreign code (it cannot write unexported fields) and repo callees (they
-	// are verified to preserve them)
+	f.reassumeParamInvs(st)
+}
+
+// reassumeParamInvs: type invariants of objects reachable through pointer
+// parameters survive foreign code (it cannot write unexported fields) and repo
+// callees (they are verified to preserve them, or the invariant is an assumed one).
+func (f *frame) reassumeParamInvs(st *bstate) {
 	top := f
 	for top.caller != nil {
 		top = top.caller
